@@ -937,7 +937,7 @@ def check_c16(run):
             k -= 1
         return False
     neutral_t = list(TRIG) if not q else r_.sample(list(TRIG), 1)
-    notes_only = [] if q else ["skip_trailing", "pre_host_trim", "pre_host_const", "post_host_const"]
+    notes_only = [] if q else ["skip_trailing", "pre_host_trim", "pre_host_const", "post_host_const", "latin1"]
     drift = 0
     for i, pn in enumerate(neutral_t + notes_only):
         bad, nev = run.record_and_validate(1200 if q else 8000, seed_salt=180 + i, parser=pn, parse_only=40)
